@@ -826,12 +826,39 @@ def malformed_case(draw, asan_every):
     return {"kind": "malformed", "lines": lines, "mutation": kind, "asan": draw(st.integers(0, asan_every - 1)) == 0}
 
 
+SHRINK_EVALUATIONS = 120
+
+
+def bounded(ctx):
+    """the oracle, with the work spent on shrinking a found violation bounded by a number of evaluations: once a violation
+    was seen, SHRINK_EVALUATIONS further candidates are evaluated, later ones pass unevaluated (known failing cases
+    fail again, so the reported minimal case stays reproducible).  Without a violation this wrapper does nothing."""
+    from ..core import sha
+    seen = {}
+    state = {"after": 0}
+
+    def f(case):
+        if seen:
+            h = sha(case)
+            if h in seen:
+                raise seen[h]
+            state["after"] += 1
+            if state["after"] > SHRINK_EVALUATIONS:
+                return {"nontrivial": False, "classes": ["shrink_budget_exhausted"]}
+        try:
+            return check_case(case, ctx)
+        except Violation as v:
+            seen[sha(case)] = v
+            raise
+    return f
+
+
 def run(ctx):
     b = BUDGET[ctx.tier]
     try:
-        ctx.hyp(valid_case(), lambda c: check_case(c, ctx), b["valid"], "valid")
-        ctx.hyp(large_case(), lambda c: check_case(c, ctx), b["large"], "large")
-        ctx.hyp(malformed_case(ASAN_EVERY[ctx.tier]), lambda c: check_case(c, ctx), b["malformed"], "malformed")
+        ctx.hyp(valid_case(), bounded(ctx), b["valid"], "valid")
+        ctx.hyp(large_case(), bounded(ctx), b["large"], "large")
+        ctx.hyp(malformed_case(ASAN_EVERY[ctx.tier]), bounded(ctx), b["malformed"], "malformed")
     finally:
         e = _engines.pop(id(ctx), None)
         if e:
